@@ -122,7 +122,7 @@ struct Ops {
 	unsigned n, es, ibits;
 	void (*cp2i)(uint64_t, Big&, bool);
 	int (*ci2p)(const Big&, uint64_t&, bool);
-	bool hangs() const { return UV_KIND == 0 && BW == 64 && ibits > 64; }   // scale(integer) never terminates (probed by mode `hang`)
+	bool hangs() const { return false; }   // multi-block uint64_t used to be converted only in time-limited children (mode `hang`): before the carry repair of integer::operator+= (and before convert_i2p stopped calling scale(integer)) the conversion did not terminate there
 	bool has_rtp() const { return ibits <= 12 || n >= 12; } // keep the exhaustive wide-integer streams short
 	int maxscale() const { return int(n - 2) * (1 << es); }
 	unsigned fb() const { return es + 2 >= n ? 0 : n - 3 - es; }
@@ -233,9 +233,10 @@ static void emit_i(const Ops& o, const Big& x, uv::Rng& g) {
 }
 static void i2p_sample(const Ops& o, uv::Rng& g) {
 	const unsigned n = o.n, es = o.es, ibits = o.ibits; const int maxscale = o.maxscale();
-	// magnitudes up to 2^(n+1) are converted, larger ones throw: keep most of the sample below the boundary
-	const int top = std::min<int>(std::min<int>(maxscale, int(ibits)), g.below(4) ? int(n) + 1 : int(ibits));
-	switch (g.below(9)) {
+	// magnitudes up to 2^(n+1) fit the bitblock<nbits> fraction exactly, larger ones leave bits for the sticky position:
+	// half of the sample on each side of that boundary
+	const int top = std::min<int>(std::min<int>(maxscale, int(ibits)), g.coin() ? int(n) + 1 : int(ibits));
+	switch (g.below(10)) {
 	case 0: emit_i(o, uv::operand(g, ibits), g); break;
 	case 1: { unsigned k = unsigned(g.below(ibits)); emit_i(o, Big::pow2(k).plus(int64_t(g.below(3)) - 1, ibits), g); break; }
 	case 2: case 3: { // a posit value that is an integer (or its floor), and its integer neighbours
@@ -260,6 +261,20 @@ static void i2p_sample(const Ops& o, uv::Rng& g) {
 		c[nc++] = Big::ones(ibits - 1);
 		emit_i(o, c[g.below(nc)].plus(int64_t(g.below(5)) - 2, ibits), g); break; }
 	case 7: emit_i(o, Big().plus(int64_t(g.below(41)) - 20, ibits), g); break;
+	case 8: { // msb > nbits: a midpoint between adjacent posits, exactly and with one dropped bit 2^j set below / cleared above it
+		const int hi = std::min<int>(maxscale, int(ibits) - 2);
+		if (hi <= int(n) + 1) { emit_i(o, Big::pow2(ibits - 2).plus(int64_t(g.below(3)) - 1, ibits), g); break; }
+		int s = int(n) + 2 + int(g.below(uint64_t(hi - int(n) - 1)));
+		u128 U = in_binade(o, g, s);
+		PV m = pdecode(n + 1, es, 2 * U + 1);
+		Big x = bigfloor(m.sig, m.sh);
+		unsigned j = unsigned(g.below(uint64_t(s - int(n))));          // a position that falls off the bitblock<nbits>
+		switch (g.below(3)) {
+		case 0: break;
+		case 1: x.setbit(j); break;
+		default: { Big y = x.plus(-1, ibits); y.setbit(j, false); x = y; break; }   // just below the midpoint, bit j cleared
+		}
+		emit_i(o, x, g); break; }
 	default: { // random magnitude below the exception boundary
 		unsigned k = 1 + unsigned(g.below(std::min<unsigned>(n + 1, ibits - 1)));
 		Big x; for (unsigned i = 0; i < k; ++i) x.setbit(i, g.coin());
